@@ -179,17 +179,27 @@ def names_and_linkback_history(ctx, prog, stats):
                 exp = exp if exp[0] != "exc" else ["exc"]
                 stats["evaluations"] += 1
                 if got != exp:
+                    # tiebreak history (KF-05): a pushed-down definition whose pusher was unregistered
+                    mdefs = model.run_cases([[12, mops]])[0]
+                    byid = {d["id"]: d for d in live}
+                    orphan = any(tie < 0 and not any(t2 == tie + 1 and R_same_sig(byid[i], byid[j]) for (j, t2) in mdefs) for (i, tie) in mdefs)
+                    if orphan:
+                        ctx.known_hit("KF-05", {"spec": prog["spec"], "live": live, "calls": [call], "history": hist})
+                        stats["kf05"] += 1
+                        continue
                     ctx.violation(f"after {tag}: call with {'positional' if names is None else 'last argument as keyword ' + names[-1]} gives {got}, a function built from the resulting method set gives {exp}",
                                   {"spec": prog["spec"], "live": live, "calls": [call], "history": hist})
                     return False
         return True
     hist = []
+    mops = []
     for step in range(rng.randint(3, 8)):
         if live and rng.random() < 0.35:
             d = rng.choice(live)
             b.unregister(d["id"])
             live = [x for x in live if x["id"] != d["id"]]
             hist.append(["unregister", d["id"]])
+            mops.append([1, d["id"]])
         else:
             d = dict(rng.choice(defs)); d["id"] = nid; nid += 1
             try:
@@ -206,6 +216,7 @@ def names_and_linkback_history(ctx, prog, stats):
                     return
             live.append(d)
             hist.append(["register", d])
+            mops.append([0, progs.enc_method(d)])
         if live and rng.random() < 0.7:
             try:
                 if not probe(hist[-1][0]):
